@@ -416,6 +416,45 @@ Section R.
     apply H. lia.
   Qed.
 
+  (* iteration yields exactly the stored entries, each key once (C19: "each stored value exactly once and nothing else") *)
+  Lemma occ_vals_in t : RInv t -> forall n, N.of_nat n <= rcap t ->
+    forall k p, In (k, p) (occ_vals t n) <-> exists i, i < N.of_nat n /\ is_occ (tget (slots t) i) = true /\ sval (tget (slots t) i) = Some (k, p).
+  Proof.
+    intros I. induction n as [|n IH]; intros Hn k p; cbn [occ_vals].
+    - split; [intros []|intros (i & Hi & _); lia].
+    - rewrite in_app_iff, IH by lia. split.
+      + intros [(i & Hi & Ho & Hs)|Hin]; [exists i; split; [lia|auto]|].
+        unfold isocc in Hin. destruct (status (tget (slots t) (N.of_nat n)) <=? M63) eqn:E; [|destruct Hin].
+        destruct (sval (tget (slots t) (N.of_nat n))) as [kv|] eqn:Es; [|destruct Hin]. destruct Hin as [->|[]].
+        exists (N.of_nat n). split; [lia|]. split; [exact E|exact Es].
+      + intros (i & Hi & Ho & Hs). destruct (N.eq_dec i (N.of_nat n)) as [->|Hne]; [|left; exists i; split; [lia|auto]].
+        right. unfold isocc. unfold is_occ in Ho. rewrite Ho, Hs. left. reflexivity.
+  Qed.
+  Lemma nodup_snoc {A} (l : list A) x : NoDup l -> ~ In x l -> NoDup (l ++ [x]).
+  Proof.
+    induction l as [|a l IH]; intros Hn Hx; cbn; [constructor; [intros []|constructor]|].
+    inversion Hn as [|? ? Ha Hl]; subst. constructor.
+    - rewrite in_app_iff. intros [H|[H|[]]]; [contradiction|subst; apply Hx; left; reflexivity].
+    - apply IH; [exact Hl|]. intro H. apply Hx. right. exact H.
+  Qed.
+  Lemma occ_vals_nodup t : RInv t -> forall n, N.of_nat n <= rcap t -> NoDup (map fst (occ_vals t n)).
+  Proof.
+    intros I. induction n as [|n IH]; intro Hn; cbn [occ_vals]; [constructor|].
+    rewrite map_app. unfold isocc. destruct (status (tget (slots t) (N.of_nat n)) <=? M63) eqn:E; [|cbn; rewrite app_nil_r; apply IH; lia].
+    destruct (sval (tget (slots t) (N.of_nat n))) as [[k p]|] eqn:Es; [|cbn; rewrite app_nil_r; apply IH; lia].
+    cbn [map fst]. apply nodup_snoc; [apply IH; lia|].
+    intro Hin. apply in_map_iff in Hin. destruct Hin as ([k' q] & Ek & Hin). cbn in Ek. subst k'.
+    apply (occ_vals_in t I n) in Hin; [|lia]. destruct Hin as (i & Hi & Ho & Hs).
+    assert (i = N.of_nat n); [|lia].
+    apply (r_uniq _ I i (N.of_nat n) k q p); auto; lia.
+  Qed.
+  Theorem iter_exactly_once t : RInv t ->
+    (forall k p, In (k, p) (occ_vals t (N.to_nat (rcap t))) <-> exists i, i < rcap t /\ is_occ (tget (slots t) i) = true /\ sval (tget (slots t) i) = Some (k, p)) /\
+    NoDup (map fst (occ_vals t (N.to_nat (rcap t)))).
+  Proof.
+    intro I. split; [|apply occ_vals_nodup; [exact I|lia]]. intros k p. rewrite (occ_vals_in t I) by lia. now rewrite N2Nat.id.
+  Qed.
+
   (* ================= reserve_rehash ================= *)
   Definition npot (x : N) : N := 2 ^ N.log2_up x.            (* usize::next_power_of_two *)
   Definition empty_slot : slot := {| status := FREE; sval := None |}.
